@@ -157,16 +157,19 @@ def stripSerials (s : String) : String :=
 
 /-- No positional slice sits above a transfer out of a SQL engine (whose row order is the
 database's business). -/
-def iterDet : Rel → Bool
+def iterDet (σ : Leaves) : Rel → Bool
   | .leaf .. => true
-  | .unary op t _ =>
-    iterDet t && (match op with
+  | .unary op t cols =>
+    iterDet σ t && (match op with
       | .slice _ _ => !(hasSqlTransferAux t)
+      -- key-based deduplication keeps the LAST row of each key: on rows that are not
+      -- key-determined the survivor depends on the order the database delivered them in
+      | .dedup => !(hasSqlTransferAux t) || rowsKeyDetermined cols (sem σ t)
       | _ => true)
-  | .binary _ l r _ => iterDet l && iterDet r
-  | .mat _ _ t => iterDet t
-  | .transfer _ _ t => iterDet t
-  | .select _ _ _ _ _ _ _ _ t => iterDet t
+  | .binary _ l r _ => iterDet σ l && iterDet σ r
+  | .mat _ _ t => iterDet σ t
+  | .transfer _ _ t => iterDet σ t
+  | .select _ _ _ _ _ _ _ _ t => iterDet σ t
 where
   hasSqlTransferAux : Rel → Bool
     | .leaf .. => false
@@ -351,7 +354,9 @@ def step (d : Drv) (cmd : List Sexp) : Drv × String :=
     | some t, some e =>
       match t.transferredTo d.store e with
       | .error er => (d, errLine er)
-      | .ok res => (d.setDirect n (d.direct? tn)).report n (if res.isSame then "same" else "new") (.ok (res.get t))
+      | .ok res =>
+        let d := if d.f04.contains tn then { d with f04 := n :: d.f04 } else d
+        (d.setDirect n (d.direct? tn)).report n (if res.isSame then "same" else "new") (.ok (res.get t))
     | _, _ => (d, "bad-ref")
   -- (fmt PREFIX COUNTER HEX): the generated relation name for these ingredients
   | [atom "fmt", atom pfx, atom c, atom hex] =>
@@ -433,7 +438,7 @@ def step (d : Drv) (cmd : List Sexp) : Drv × String :=
             let univ := d.env.tags
             let again := if showRows univ rows1 == showRows univ rows2 then "same" else "diff"
             ({ d with st := { s1 with log := [] } },
-             s!"ok rows={showRows univ rows1} again={again} pulls_exec={showLog d execLog} pulls_iter1={showLog d log1} pulls_iter2={showLog d log2} order={if hasSqlTransfer r then "any" else "exact"} det={showBool (iterDet r)}")
+             s!"ok rows={showRows univ rows1} again={again} pulls_exec={showLog d execLog} pulls_iter1={showLog d log1} pulls_iter2={showLog d log2} order={if hasSqlTransfer r then "any" else "exact"} det={showBool (iterDet d.sigma r)}")
   -- (sem rN): reference semantics (model only; the harness uses it as the oracle)
   | [atom "sem", atom n] =>
     match d.rel? n with
